@@ -25,12 +25,16 @@ FUNCTIONS = ["strax.context.Context.copy_to_frontend", "Context._get_target_sf",
 BOUNDS = {
     "quick": "stored layouts of <=3 chunks / <=4 rows; copy with rechunk off / on (targets 1-2 rows) and a compressor "
              "change; rechunk on load with 1-2 row source size; stand-alone rechunker serial, to a new location and "
-             "in place (replace); per-chunk jobs = every chunk of the dependency, merged with rechunk on/off",
+             "in place (replace), also with the progress bar off and with a destination that resolves to the source; "
+             "a failing write of a solver-chosen output chunk in serial and pool mode; per-chunk jobs = every chunk of "
+             "the dependency, merged with rechunk on/off; solver-chosen grouping, subset and order of merged jobs",
     "thorough": "<=4 chunks / <=5 rows; groupings of dependency chunks into jobs",
 }
-ASSUMPTIONS = C03.ASSUMPTIONS + ["stand-alone rechunker in serial mode (thread/process modes use real pools)",
+ASSUMPTIONS = C03.ASSUMPTIONS + ["stand-alone rechunker in serial mode; pool mode only in failwrite, symbolically with an "
+                                 "executor that completes real Futures at submission and the mailbox threads under the "
+                                 "deterministic scheduler, natively with the real thread pool",
                                  "a compressor change is checked in the metadata only"]
-OUTSIDE = ["compression codecs", "thread / process mode of the stand-alone rechunker", "strax.scripts.rechunker CLI parsing",
+OUTSIDE = ["compression codecs", "process mode of the stand-alone rechunker; timing of its thread pool", "strax.scripts.rechunker CLI parsing",
            "dry_load_files on real bytes"]
 STUBS = C03.STUBS
 RUN = "0"
